@@ -9,3 +9,7 @@ package value
 //@ func iface Value.Type
 //@   assigns caches
 //@   ensures result == vtype(self) && result != nil
+
+//@ # The name of a value is abstract state vname(v) (specs/llvm_ir.spec).
+//@ func iface Named.Name
+//@   ensures result == vname(self)
